@@ -119,7 +119,7 @@ DeadState ==
    vpol |-> "none", ppol |-> FALSE, epol |-> FALSE, upol |-> FALSE, mpol |-> FALSE,
    \* log levels: a bit-set over 16 levels (bit numbers 1..16)
    lvl |-> {},
-   \* auxiliary map: "none" (never set), "empty" (fresh map), "given" (the caller's map, by reference);
+   \* auxiliary map: "none" (never set), "empty" (fresh map), "given" (the caller's map, by reference), "given0" (the caller's map, allocated but empty: by reference too);
    \* logger: "devnull" (default / off), "stdout", "stderr", "custom"
    aux |-> "none", logger |-> "devnull"]
 
@@ -273,7 +273,7 @@ StepLive(s, c) ==
     [] c.op = "Free" -> [s |-> DeadState, ret |-> <<"nil">>]
     [] c.op = "SetAuxiliary" ->
          \* no argument or nil => a fresh empty map; otherwise the given map itself
-         [s |-> [s EXCEPT !.aux = IF c.form = "map" THEN "given" ELSE "empty"], ret |-> <<>>]
+         [s |-> [s EXCEPT !.aux = IF c.form = "map" THEN "given" ELSE IF c.form = "map0" THEN "given0" ELSE "empty"], ret |-> <<>>]
     [] c.op = "SetLogger" ->
          \* "stdout" / 1, "stderr" / 2, a *log.Logger; "none" / "off" / "null" / "discard" / 0 / nil / anything else => discard
          [s |-> [s EXCEPT !.logger = CASE c.arg \in {"stdout", "STDOUT", "int1"} -> "stdout"
